@@ -87,6 +87,13 @@ def cases(tier, seed):
         DB = DA if rng.random() < 0.5 else rng.choice(dens)
         out.append(dict(kind='fork-rat', op=rng.choice(['+', '-', '*', '/']), NA=[list(x) for x in NA], DA=[list(x) for x in DA],
                         NB=[list(x) for x in NB], DB=[list(x) for x in DB], fork=True))
+    # variable names whose concatenations are ambiguous (a*a*bb vs a*ab*b vs aab*b): whatever identifies a monomial must
+    # be the TUPLE of names
+    amb = [('a',), ('ab',), ('b',), ('bb',), ('aab',), ('a', 'ab'), ('a', 'bb'), ('ab', 'b'), ('a', 'a'), ('aab', 'b'), ('a', 'a', 'bb'), ('a', 'ab', 'b')]
+    for i in range(60 if tier == 'quick' else 400):
+        A = chgen.sort_shape(rng.sample(amb, rng.randint(1, 3)))
+        B = chgen.sort_shape(rng.sample(amb, rng.randint(1, 3)))
+        out.append(dict(kind='fork-poly', op=rng.choice(['*', '*', '+', '-']), A=[list(x) for x in A], B=[list(x) for x in B], fork=True))
     # shapes harvested from kingdon's own code generation (sw, proj, inv, div, normsq, outer series in 2-D / 3-D):
     # the operand shapes that really occur, with their +-1/+-2 coefficients generalised to symbolic reals
     H = harvest_shapes()
